@@ -152,6 +152,11 @@ def read_text(
                 delayed(attach_path)(entry, path) for entry, path in zip(blocks, paths)
             ]
 
+    if not blocks and blocksize is not None and raw_blocks:
+        # files were found but all of them are empty: one empty partition,
+        # like the blocksize=None branch
+        blocks = [delayed(list)([])]
+
     if not blocks:
         raise ValueError("No files found", urlpath)
 
